@@ -460,7 +460,7 @@ def slot(path):
     return ".".join(tail[-4:]) or "root"
 
 
-class _Hang(Exception):
+class _Hang(BaseException):      # not an Exception: no `except Exception` on the way (the library's or threading's) may take it for its own
     pass
 
 
@@ -492,7 +492,7 @@ def run_corrupted(res, case, cfg, names, engine, witness, idx):
                         "value": repr(witness["value"]), "phase": phase,
                         "error": "%s: %s" % (type(e).__name__, str(e)[:160])})
         return "rejected"
-    signal.setitimer(signal.ITIMER_REAL, 5.0)
+    signal.setitimer(signal.ITIMER_REAL, 20.0)
     try:
         try:
             machine = create_machine(cfg, logic=logic)
